@@ -89,6 +89,10 @@ pub fn exec(sim: &mut Sim, ev: &str, a: &Value) -> Result<(), String> {
                 return Err("no event message".into());
             }
         }
+        "EmitS" if a["t"] == json!("SMTrig") && sim.server_entity("e1").is_none() => {
+            // the payload entity of the mapped trigger is slot e1: not before that slot has been used
+            return Err("SMTrig before e1 exists".into());
+        }
         "DropEvS" => {
             let ch = sim.sev_ch(s(a, "t"));
             if !sim.drop_s2c(s(a, "c"), ch, a["pos"].as_u64().unwrap_or(0) as usize) {
